@@ -98,7 +98,7 @@ def draw(rng, alg):
 def run_shard(spec, rng, ctx):
     end = C.budget(spec)
     i = 0
-    while i < spec["max_cases"] and time.time() < end:
+    while i < spec["max_cases"] and C.now() < end:
         case = draw(rng, C.COVERERS[i % 3])
         if case.get("planted_opt") is None and len(case["values"]) > 13:
             i += 1
